@@ -74,7 +74,13 @@ func sigOf(monitor string, cs *Case) string {
 	return monitor + " | " + cs.canon()
 }
 
+// Minimise can be switched off by development tools (triage sweeps).
+var Minimise = true
+
 func minimise(c *core.Ctx, cs *Case, first core.Result) core.Result {
+	if !Minimise {
+		return first
+	}
 	if cs.Mode != "seq" {
 		return first
 	}
@@ -113,7 +119,7 @@ func minimise(c *core.Ctx, cs *Case, first core.Result) core.Result {
 
 // execCase runs one materialised case and returns the verdict.
 func execCase(c *core.Ctx, cs *Case, st *core.Stats) (res core.Result) {
-	mon := &monitors{st: st}
+	mon := &monitors{st: st, trace: c.Replay && st == c.Stats}
 	res = core.Result{Verdict: core.Held, Key: cs.canon()}
 	defer func() {
 		if x := recover(); x != nil {
@@ -306,4 +312,9 @@ func compareTwins(a, b *world, cs *Case, i int, opA, opB *Op, ra, rb stepRec) {
 			fail(fmt.Sprintf("structure of %s differs afterwards\n  A: %s\n  B: %s", n, da, db))
 		}
 	}
+}
+
+// Show returns the canonical text of a generated case (development aid).
+func Show(seed uint64, idx int) string {
+	return materialise(&core.Ctx{Property: "C04", Seed: seed, Index: idx, Rng: core.CaseRng(seed, "C04", idx)}).canon()
 }
